@@ -30,6 +30,17 @@ CLAIMED = {
         note="inputs < 2^40 ms; Go int is 64-bit",
         technique="Coq proof (lia over Z.quot) + differential correspondence check against the extracted model",
         ref="DESIGN.md section 6, C08"),
+    "C09": dict(
+        text="Coq theorems over the Gallina transliteration of the Zobrist code, for an ARBITRARY key table: the from-scratch hash "
+             "reads only placement, side, held rights and en-passant file; every generated move, null move, unmake-null (whole record "
+             "restored), FEN load and New() keeps 'hash = from-scratch hash'; hence every position reachable by legal moves and null "
+             "moves has it and two reachable positions equal in those four components have equal hashes (given that legal moves preserve "
+             "the C10 invariant - an explicit premise); for the generated keys, positions differing in exactly one component hash "
+             "differently; the unrepaired code is refuted with concrete witnesses (D1). Tied to the code by whole-struct comparison after "
+             "every operation of random histories; oracle: incremental vs independently recomputed hash vs FEN reload.",
+        note="distinctness for arbitrary pairs of positions is not claimable for a 64-bit hash (stated); reachability theorems carry the C10 step as premise",
+        technique="Coq proof (XOR algebra, induction over histories) + differential correspondence check",
+        ref="DESIGN.md section 6, C09"),
     "C11": dict(
         text="Coq theorems over the byte-level model of NewFromFen / ToFen (Go UTF-8 decoding, strings.Split, strconv.Atoi, "
              "unicode.IsDigit as an arbitrary table, uint8 cursor arithmetic): for EVERY byte string parsing never panics; for every "
